@@ -363,7 +363,9 @@ pub fn rand_doc(r: &mut Rng, depth: usize, keys: &[&str]) -> J {
         4 | 5 => {
             let n = 1 + r.below(4);
             let nk = 1 + r.below(4);
-            let ks: Vec<&str> = (0..nk).map(|_| *r.pick(keys)).collect();
+            let mut ks: Vec<&str> = (0..nk).map(|_| *r.pick(keys)).collect();
+            ks.sort_unstable();
+            ks.dedup();
             let proto: Vec<J> = ks.iter().map(|_| rand_doc(r, depth - 1, keys)).collect();
             let mut xs = Vec::new();
             for _ in 0..n {
